@@ -11,7 +11,9 @@ from readers import join_lines, gaf_record, read_text, run_cli, write_text
 EXTRA = ["tp:A:P", "NM:i:-3", "zd:Z:a:b c#1"]
 
 
-IDS = ["s1", "s10", "s100", "s2", "s20", "s3", "s30", "s4", "s40", "s5"]      # ids that are prefixes of one another
+# segment names are free text: ids that are prefixes of one another, that sort differently as text and as numbers, and
+# with the punctuation real assemblers use (utig4-15, s1.alt, PanSN-like '#')
+IDS = ["s1", "s10", "s1.alt", "utg4-15", "s2", "HG#1#c7", "s3", "s30", "s4_b", "s5"]
 HAPCTG = "HG002#1#JAHKSE01.1"                                                    # a contig name as real rGFAs have them
 
 
